@@ -8,6 +8,7 @@ package absnfs
 import (
 	"container/list"
 	"os"
+	"strings"
 	"sync"
 	"sync/atomic"
 	"time"
@@ -309,6 +310,22 @@ func (c *AttrCache) Invalidate(path string) {
 
 	c.removeFromAccessLog(path)
 	delete(c.cache, path)
+}
+
+// InvalidatePrefix removes the entry for path and every entry (positive or
+// negative) for a path below it. Used when a directory is renamed: everything
+// cached under its old name, and under the name it took, is stale.
+func (c *AttrCache) InvalidatePrefix(path string) {
+	c.mu.Lock()
+	defer c.mu.Unlock()
+
+	prefix := strings.TrimSuffix(path, "/") + "/"
+	for p := range c.cache {
+		if p == path || strings.HasPrefix(p, prefix) {
+			c.removeFromAccessLog(p)
+			delete(c.cache, p)
+		}
+	}
 }
 
 // Clear removes all entries from the cache
@@ -627,6 +644,20 @@ func (c *DirCache) Invalidate(path string) {
 
 	c.removeFromAccessList(path)
 	delete(c.entries, path)
+}
+
+// InvalidatePrefix removes the listing for path and for every directory below it
+func (c *DirCache) InvalidatePrefix(path string) {
+	c.mu.Lock()
+	defer c.mu.Unlock()
+
+	prefix := strings.TrimSuffix(path, "/") + "/"
+	for p := range c.entries {
+		if p == path || strings.HasPrefix(p, prefix) {
+			c.removeFromAccessList(p)
+			delete(c.entries, p)
+		}
+	}
 }
 
 // Clear removes all entries from the cache
